@@ -749,6 +749,12 @@ def rule_ids_are_strings(ctx) -> None:
     ctx.floor("C18.KEY", "returns of the item adapter", len(rets), 3)
     for r in rets:
         idv = r.value.elts[0]
+        if isinstance(idv, ast.Name):   # a local bound to the stringified id
+            rd = ctx.rd(fn)
+            at = ctx.cfg(fn).node_containing(r)
+            ds = [d for d in rd.reaching(idv.id, at[0])] if at else []
+            if ds and all(d.value is not None and isinstance(d.value, ast.Call) and dotted(d.value.func) in ("str", "repr") for d in ds):
+                idv = ds[0].value
         ok = isinstance(idv, ast.Call) and dotted(idv.func) in ("str", "repr")
         ctx.check(ok, "C18.KEY", ctx.okey(f"{fn.qual}/id-is-a-string"), fn.loc(r), f"`{src(idv)[:30]}` is a string", 
                   f"this branch returns the id as `{src(idv)[:30]}`, not str(...): the sibling branches stringify; a non-string id (7 next to \"7\", 1 next to 1.0 / True) is de-duplicated and sorted "
